@@ -52,6 +52,23 @@ def rule_guard(ctx, f):
                 ok = True
         ctx.check(ok, "C14-GUARD", "%s#chain-test" % b["id"], "the recursion guard does not stop a repeated key before the load: a reference cycle through typed loads recurses without bound",
                   b["span"], detail="chain.contains(&key) -> Err before push / get_or_compute")
+        # the key stays on the chain while the load runs: the value whose Drop pops it (a guard object whose closure calls pop) is dropped
+        # only on paths that can no longer reach the load
+        guards = []
+        for i, j, st in F.stmts(b):
+            if st[0] == "assign" and st[2][0] == "aggregate" and st[2][1].get("k") == "adt" and len(st[1]) == 1:
+                for op in st[2][2]:
+                    l = F.op_local(op)
+                    for dfn in (Flow(b).defs.get(l, []) if l is not None else []):
+                        if dfn[0] == "assign" and dfn[2][0] == "aggregate" and dfn[2][1].get("k") == "closure":
+                            cb = f.bodies.get(dfn[2][1].get("closure"))
+                            if cb is not None and any(last_seg(F.callee_name(tt)) == "pop" for _, tt in F.calls(cb)):
+                                guards.append(st[1][0])
+        drops = [(i, bb["term"]) for i, bb in enumerate(b["blocks"]) if bb["term"]["k"] == "drop" and not bb.get("cleanup") and bb["term"]["place"] and bb["term"]["place"][0] in guards]
+        okp = bool(guards) and bool(drops) and not any(cfg.can_reach(d, x) for d, _ in drops for x in load)
+        ctx.check(okp, "C14-GUARD", "%s#pop-after-load" % b["id"], "the object that pops the key off the chain is %s: while the load runs the chain does not contain the key, so "
+                  "neither the recursion test nor the depth limit can stop a cycle" % ("dropped before the load (`let _ = ..` drops at once)" if guards and drops else "not found"),
+                  b["span"], detail="guard object dropped only after the cached load")
         # depth: the length of the chain is compared with a constant before the push (each nested load costs stack, and a file can
         # make the chain of distinct objects as long as it likes)
         lens = [(bi, t) for bi, t in F.calls(b) if last_seg(F.callee_name(t)) == "len" and "Vec" in F.callee_name(t) + t.get("callee_full", "")]
@@ -168,7 +185,7 @@ def run(ctx):
             continue        # reported with the site itself by C14-TAINT
         for rq in e.get("requires", []):
             nreq += 1
-            okq, whyq = census.requirement(f, rq)
+            okq, whyq = census.requirement(f, rq, e)
             ctx.check(okq, "C14-REQ", "%s#%s:%s" % (e["fn"], e["site"], rq["kind"] + ":" + str(rq.get("fn") or rq.get("adt")) + (":" + str(rq.get("variant") or rq.get("const") or ""))),
                       "the reviewed reason for %s in %s (\"%s\") rests on a fact that no longer holds: %s" % (e["site"], e["fn"], e["reason"][:140], whyq),
                       (f.bodies.get(e["fn"]) or {}).get("span", ""), detail=whyq)
